@@ -34,9 +34,9 @@ UtcType == [off |-> 0, dst |-> 0, des |-> <<>>]
 \* ---- C01: gmtime ----
 Gmtime(t, ns) == IF InRange(t) THEN OutOk(UdtRec(t, ns)) ELSE OutErr("OutOfRange")
 \* zoned date-time from an instant and a local time type: local fields must be representable
-\* (the statements leave open whether an instant outside [MinT, MaxT] whose local reading is representable is accepted)
-FromLocal(t, ns, ty) == IF ~InRange(CAddSec(t, ty.off)) THEN OutErr("OutOfRange")
-                        ELSE IF InTRange(t) THEN OutOk(DtRec(t, ns, ty)) ELSE Out({DtRec(t, ns, ty)}, {"OutOfRange"})
+\* C03 / C14: the local date-time is the UTC calendar date of (instant + offset); it exists exactly when that sum is in the
+\* supported range, whether or not the instant itself is (an instant just outside the range can have a representable local reading)
+FromLocal(t, ns, ty) == IF InRange(CAddSec(t, ty.off)) THEN OutOk(DtRec(t, ns, ty)) ELSE OutErr("OutOfRange")
 
 \* ---- C02: timegm ----
 FieldErrs(y, mo, d, h, mi, s, ns) ==
